@@ -23,7 +23,7 @@ def make_v1(T, singles, chords, plain=(), red=1):
               "part": [cfgdesc.code(k) for k in ckeys],
               "chords": [{"ks": sorted(cfgdesc.code(k) for k in ch), "o": cfgdesc.code(CHO[i]), "u": "", "T": T,
                           "first": False, "dis": []} for i, ch in enumerate(chords)],
-              "red": red, "minidle": 0, "lkey": 0, "slack": 2 * red + 8}
+              "red": red, "minidle": 0, "lkey": 0, "slack": red + 7}
     return desc, params
 
 
@@ -54,7 +54,7 @@ def make_v2(chords, keys, red=1, minidle=5, lkey=None):
                           "o": 0 if (uni and uni[0] != "+") else cfgdesc.code(CHO[i]),
                           "u": (uni or "").lstrip("+"), "T": T, "first": rel == "first", "dis": list(dis)}
                          for i, (ks, T, rel, dis, uni) in enumerate(chords)],
-              "red": red, "minidle": minidle, "lkey": cfgdesc.code(lkey) if lkey else 0, "slack": 2 * red + 8}
+              "red": red, "minidle": minidle, "lkey": cfgdesc.code(lkey) if lkey else 0, "slack": red + 7}
     return desc, params
 
 
@@ -102,11 +102,21 @@ def mc_instance(name, desc, params, opts):
             # presses that are never accounted for (a swallowed key is flagged at the next idle point) are not piled up
             "constraint": "PendBound",
             "extra_defs": "PendBound == mon.err # \"\" \\/ (Len(mon.pend) <= %d)" % (opts.get("qmax", 3) + 1)}
+    if opts.get("depth"):      # quick tier: every schedule of at most `depth` steps (inputs and ticks)
+        inst["extra_defs"] = inst["extra_defs"][:-1] + " /\\ Len(hist) <= %d)" % opts["depth"]
     if params["ver"] == 2:
         inst["universe"] = keys + [0]          # TRIGGER_TAPHOLD_COORD (0, 0) is dequeued like a key
         inst["view"] = "<<CvCanonK(K), phys, mon>>"
         inst["extra_guard"] = "/\\ Len(K.L.chv2.q) + Len(K.L.queue) < QMax"
-        inst["extra_defs"] = inst["extra_defs"][:-1] + " /\\ Len(K.L.chv2.ach) <= 3)"
+        # Known finding (release during the cool-down): a chord whose participants are all up, with no release of
+        # them left to process, stays active for ever.  Such states are reported as witnesses (replayed on the code and
+        # judged by the monitor there) and not expanded further - they only multiply the graph.
+        inst["extra_defs"] = (
+            "Chv2Leak == \\E i \\in DOMAIN K.L.chv2.ach : K.L.chv2.ach[i].st = \"R\" /\\ K.L.chv2.ach[i].ks \\cap phys = {}\n"
+            "              /\\ ~\\E j \\in DOMAIN K.L.chv2.q : ~K.L.chv2.q[j].p /\\ K.L.chv2.q[j].y \\in K.L.chv2.ach[i].ks\n"
+            "LeakProbe == ~Chv2Leak \\/ PrintT(<<\"MONERR\", ToJson([h |-> hist, err |-> \"L1: an active chord can no longer be released\"])>>)\n"
+            + inst["extra_defs"][:-1] + " /\\ Len(K.L.chv2.ach) <= 3 /\\ ~Chv2Leak)")
+        inst["invariants"] = ["StutterProbe", "LeakProbe"]
     return inst, kbd, keys
 
 
@@ -179,10 +189,13 @@ def run(tier, seed):
     rng = random.Random(seed)
     wd = workdir("c09")
     only = os.environ.get("C09_ONLY")
+    depth_override = os.environ.get("C09_DEPTH")
     jobs_random, witness_jobs = [], []
     for name, (desc, params), opts in family(tier):
         if only and only not in name:
             continue
+        if depth_override:
+            opts = dict(opts, depth=int(depth_override))
         inst, kbd, keys = mc_instance(name, desc, params, opts)
         r = mc.check_instance(inst, wd, workers=8, timeout=1500)
         res.add_instance(r)
